@@ -35,6 +35,9 @@ pub enum Site {
     SinkOp,
     /// One border segment added when stretching a border.
     BorderStretch,
+    /// Entry to one of the library's internal operations (a possible
+    /// preemption point between any two of them).
+    Step,
     /// Probe: a too-narrow error was raised.
     ProbeTooNarrow,
     /// Probe: a table was laid out with stacked (vertical) rows.
